@@ -41,7 +41,18 @@ func genMsg(r *hlib.Rand) cm {
 		}
 		return cm{unix.SOL_UDP, unix.UDP_GRO, d}
 	case 3:
-		return cm{unix.IPPROTO_IP, unix.IP_TOS, []byte{byte(r.Intn(256))}}
+		// messages whose cmsg_len is not a multiple of the cmsg alignment: the walk must step by CMSG_SPACE
+		switch r.Intn(5) {
+		case 0:
+			return cm{unix.IPPROTO_IP, unix.IP_TTL, le32(uint32(r.Intn(256)))} // cmsg_len 20
+		case 1:
+			return cm{unix.IPPROTO_IP, unix.IP_PKTINFO, r.Bytes(12)} // cmsg_len 28
+		case 2:
+			return cm{unix.IPPROTO_IPV6, unix.IPV6_PKTINFO, r.Bytes(20)} // cmsg_len 36
+		case 3:
+			return cm{unix.SOL_SOCKET, unix.SO_TIMESTAMP, r.Bytes(16)} // aligned: cmsg_len 32
+		}
+		return cm{unix.IPPROTO_IP, unix.IP_TOS, []byte{byte(r.Intn(256))}} // cmsg_len 17
 	case 4: // near miss: right level wrong type / wrong level right type
 		if r.Bool() {
 			return cm{unix.SOL_UDP, unix.UDP_SEGMENT, le32(uint32(r.Intn(2000)))}
